@@ -78,7 +78,10 @@ def rule_CV1(ctx, rep):
                 srcs[fld] = norm(g.iter)
     if set(srcs) == {'S', 'T'} and srcs['S'] == srcs['T']:
         r = srcs['S']
-        rdef = astq.sole_definition(fn.node, r) if r.isidentifier() else None
+        rdef = None
+        if r.isidentifier():
+            rds = [v for _, v, how in astq.reaching_definitions(fn.node, r, ins[0], pm) if how == 'assign' and v is not None]
+            rdef = rds[0] if len(rds) == 1 else None
         drawn = rdef is not None and any(isinstance(c, ast.Call) and norm(c.func) == 'secrets.randbelow' for c in ast.walk(rdef))
         if drawn:
             rep.ok('CV1', fn, ins[1], f'without PRSS: each sender inputs the same CSPRNG integers {r} as source-field and as target-field elements')
@@ -99,10 +102,44 @@ def _terms(e, sign=1, out=None):
     return out
 
 
+def _zip_elements(loop):
+    """Copy of a for loop over `zip(A, B, ..)` / `enumerate(zip(A, B, ..))` / `enumerate(A)` in which the element variables are written
+    as what they are: `A[i]`, `B[i]` (i = the enumerate position, or a fresh index name)."""
+    import copy
+    it, tg = loop.iter, loop.target
+    pos = None
+    if isinstance(it, ast.Call) and isinstance(it.func, ast.Name) and it.func.id == 'enumerate' and len(it.args) == 1 \
+            and isinstance(tg, ast.Tuple) and len(tg.elts) == 2 and isinstance(tg.elts[0], ast.Name):
+        pos, it, tg = tg.elts[0].id, it.args[0], tg.elts[1]
+    m = {}
+    if isinstance(it, ast.Call) and isinstance(it.func, ast.Name) and it.func.id == 'zip' and isinstance(tg, ast.Tuple) \
+            and len(tg.elts) == len(it.args) and all(isinstance(e, ast.Name) for e in tg.elts) and all(isinstance(a, ast.Name) for a in it.args):
+        pos = pos or '_i'
+        for e, a in zip(tg.elts, it.args):
+            m[e.id] = ast.Subscript(value=ast.Name(id=a.id, ctx=ast.Load()), slice=ast.Name(id=pos, ctx=ast.Load()), ctx=ast.Load())
+    elif pos is not None and isinstance(tg, ast.Name) and isinstance(it, ast.Name):
+        m[tg.id] = ast.Subscript(value=ast.Name(id=it.id, ctx=ast.Load()), slice=ast.Name(id=pos, ctx=ast.Load()), ctx=ast.Load())
+    if not m:
+        return loop
+
+    class X(ast.NodeTransformer):
+        def visit_Name(self, n):
+            return copy.deepcopy(m[n.id]) if isinstance(n.ctx, ast.Load) and n.id in m else n
+    new = copy.deepcopy(loop)
+    new.body = [X().visit(b) for b in new.body]
+    new.target = ast.Name(id=pos, ctx=ast.Store())
+    ast.fix_missing_locations(new)
+    for n in ast.walk(new):
+        if not hasattr(n, '_pos'):
+            n._pos = getattr(loop, '_pos', (0, 0))
+    return new
+
+
 def _flow_terms(fn, loops, xname, opening):
     """Additive terms applied to each element of `xname` by the loops after the opening, followed through temporaries,
     `.value`, reductions (`_mod`) and re-typing calls (which keep the additive structure): [(sign, term text)], or None."""
     env = {}
+    loops = [_zip_elements(l) for l in loops]
 
     def key_of(t):
         if isinstance(t, ast.Attribute) and t.attr == 'value':
@@ -175,7 +212,9 @@ def rule_CV2(ctx, rep):
     sname = [k for k, v in shares.items() if v == 'S'][0]
     tname = [k for k, v in shares.items() if v == 'T'][0]
     added, removed = [], []
-    for s in iter_nodes(fn.node):
+    pre_loops = [_zip_elements(l) for l in iter_nodes(fn.node) if isinstance(l, ast.For) and astq.position(l) < astq.position(o)]
+    pre_stmts = [s_ for l in pre_loops for s_ in l.body] + [s_ for s_ in iter_nodes(fn.node) if isinstance(s_, ast.Assign) and isinstance(s_.value, ast.ListComp)]
+    for s in pre_stmts:
         if not isinstance(s, ast.Assign) or len(s.targets) != 1:
             continue
         tg0 = s.targets[0]
@@ -185,7 +224,7 @@ def rule_CV2(ctx, rep):
             val = s.value.elt           # x = [<element> for i in range(n)]
         else:
             continue
-        before = astq.position(s) < astq.position(o)
+        before = True
         for sg, t in _terms(val):
             txt = norm(t)
             if any(isinstance(x_, ast.Name) and x_.id == xname for x_ in ast.walk(t)):
@@ -217,7 +256,7 @@ def rule_CV2(ctx, rep):
     # the subscripts of added / removed shares use the element's own index
     for sg, t, s in added + removed:
         if '[' in t and isinstance(s, ast.For):
-            tg = norm(s.target)
+            tg = norm(_zip_elements(s).target)
             if not t.endswith(f'[{tg}]'):
                 rep.bad('CV2', fn, s, f'element {tg} is masked / unmasked with {t}: the mask of another element')
             continue
@@ -269,11 +308,20 @@ def rule_CV4(ctx, rep):
     fn = ctx.model.func(RT + 'convert')
     pm = parents(fn.node)
     cs = [c for c in iter_nodes(fn.node) if isinstance(c, ast.Call) and attr_tail(c.func) == '_convert']
-    nested = [c for c in cs if c.args and isinstance(c.args[0], ast.Call) and attr_tail(c.args[0].func) == '_convert']
+
+    def first_arg(c):
+        """first argument of a _convert call, followed one level through a temporary (`y = _convert(x, s); _convert(y, t)`)"""
+        a = c.args[0] if c.args else None
+        if isinstance(a, ast.Name):
+            ds = [d for d in astq.reaching_definitions(fn.node, a.id, c, pm) if d[2] == 'assign' and d[1] is not None]
+            if len(ds) == 1 and isinstance(ds[0][1], ast.Call) and attr_tail(ds[0][1].func) == '_convert':
+                return ds[0][1]
+        return a
+    nested = [(c, first_arg(c)) for c in cs if isinstance(first_arg(c), ast.Call) and attr_tail(first_arg(c).func) == '_convert']
     if len(nested) != 1:
         rep.bad('CV4', fn, fn.qualname, 'field-to-field conversion is not the composition _convert(_convert(x, <secure int>), target)', fn.node)
         return
-    outer, inner = nested[0], nested[0].args[0]
+    outer, inner = nested[0]
     cx = cond.context(fn, outer, pm)
     tp = fn.params[2]
     mid = routes.xp(fn, inner.args[1], inner, pm)
